@@ -67,7 +67,9 @@ def recipes(depth=2, special=False, classes=True, sub=True, max_args=3, leaves=N
     shape = G.shapes(depth, leaves=leaves).filter(lambda s: not (G.has_union(s) and G.kinds_in(s) & set(G.REGISTERED_LEAVES)) and not _overlapping_numeric_union(s))
     if classes:
         plain = shape
-        cls = st.sampled_from([["cls", "Base"], ["opt", ["cls", "Base"]], ["list", ["cls", "Base"]], ["cls", "Holder"], ["dict", ["cls", "Base"]]])
+        cls = st.sampled_from([["cls", "Base"], ["opt", ["cls", "Base"]], ["list", ["cls", "Base"]], ["cls", "Holder"], ["dict", ["cls", "Base"]],
+                               # class specs deeper inside containers
+                               ["dict", ["list", ["cls", "Base"]]], ["list", ["list", ["cls", "Base"]]], ["tuple", ["cls", "Base"], ["int"]], ["list", ["opt", ["cls", "Base"]]]])
         shape = st.integers(0, 3).flatmap(lambda i: cls if i == 0 else plain)  # (one_of would flatten and drown the class shapes)
 
     def arg(names):
